@@ -14,7 +14,8 @@ from harness.drivers import paired_driver as D
 ID = "C23"
 PROP_FILE = "Props/C23.v"
 THEOREMS = ["C23_stage_wrapper_trace", "C23_stage_wrapper_unstages_all", "C23_stage_wrapper_unstages_all_and_waits", "C23_stage_roots", "C23_suspend_wrapper_trace", "C23_suspend_wrapper_removes_all", "C23_subs_wrapper_trace", "C23_subs_wrapper_unsubscribes_tokens", "C23_run_wrapper_trace", "C23_run_wrapper_one_close", "C23_close_status_table"]
-COQ_IMPORTS = "From BV Require Import Gen.Coalg Gen.PyGen Gen.Wrappers Gen.Tie Gen.Paired Gen.TiePaired."
+COQ_IMPORTS = ("From BV Require Import Gen.Coalg Gen.PyGen Gen.Wrappers Gen.Tie Gen.Paired Gen.Insert Gen.Relative "
+               "Gen.TiePaired Gen.TieRelative.")
 PARALLEL = True
 MODELLED = ""
 RULE = ""
@@ -116,10 +117,26 @@ def cases(rng, tier):
         out.append({"w": "run", "ndev": 2, "msgs": MSGS_PLAIN, "plan": p, "mode": "exh", "depth": 4 if quick else 5})
     out.append({"w": "run", "ndev": 2, "msgs": MSGS_PLAIN + [["close", None, None]], "plan": seq(Y(0), Y(4), Y(1)), "mode": "inject",
                 "base": ["send", 7]})
+    # ---- lazily_stage_wrapper: messages on roots, children, grandchildren; answers None / device lists / Status
+    LPAR = [[1, 0], [2, 1], [4, 3]]           # 2 -> 1 -> 0 ; 4 -> 3 ; 5 alone
+    LMSGS = [["cmd", 0, 2], ["cmd", 2, 1], ["cmd", 1, 4], ["cmd", 3, 5], ["kickoff", 5, 7], ["cmd", 0, 0]]
+    LLISTS = [[0], [0, 1, 2], [], [3, 4], [5]]
+    LINNER = [seq(Y(0), Y(1), Y(5)), seq(Y(0), Y(0), Y(2), Y(2)), seq(Y(3), Y(4), Y(2)), seq(Y(0, 0), ["return", ["var", 0]]),
+              seq(Y(0), ["raise", "User1"]), ["try", seq(Y(0), Y(2)), [["exc", seq(Y(1), Y(2))]], ["pass"], ["pass"]],
+              seq(Y(2), Y(0), Y(1), Y(4), Y(3)), ["pass"], seq(Y(3), Y(3)), ["try", Y(0), [["genexit", Y(1)]], ["pass"], ["pass"]],
+              seq(Y(5), Y(1), ["raise", "RequestAbort"])]
+    for i, p in enumerate(LINNER):
+        for base in (SEND0, ["send", 0], ["send", 1], ["send", 2]):
+            if quick and (i + base[1] if base[1] else i) % 2 and base != SEND0:
+                continue
+            out.append({"w": "lazy", "ndev": 6, "parents": LPAR, "msgs": LMSGS, "lists": LLISTS, "plan": p, "mode": "inject", "base": base})
+    for p in LINNER[:3]:
+        out.append({"w": "lazy", "ndev": 6, "parents": LPAR, "msgs": LMSGS, "lists": LLISTS, "plan": p, "mode": "exh",
+                    "depth": 4 if quick else 5, "alpha": [SEND0, ["send", 0], ["send", 3], ["throw", "User0"], ["close"]]})
     # ---- random wrapped plans
     nrand = 60 if quick else 1500
     for _ in range(nrand):
-        w = rng.choice(["stage", "suspend", "subs", "run"])
+        w = rng.choice(["stage", "suspend", "subs", "run", "lazy"])
         c = {"w": w, "ndev": 5, "parents": [[2, 0], [3, 1], [4, 3]], "msgs": MSGS_PLAIN, "plan": rand_plan(rng), "mode": "inject",
              "base": rng.choice([SEND0, ["send", 1], ["send", 50]]) if w != "subs" else SEND0, "pairs": 6, "rand": True}
         if w == "stage":
@@ -127,6 +144,9 @@ def cases(rng, tier):
         elif w == "suspend":
             c["susps"] = [rng.randrange(3) for _ in range(rng.randint(0, 3))]
             c["single"] = False
+        elif w == "lazy":
+            c.update(ndev=6, parents=LPAR, msgs=LMSGS, lists=LLISTS, plan=remap(rand_plan(rng), rng, 6),
+                     base=rng.choice([SEND0, ["send", 0], ["send", 3]]))
         elif w == "subs":
             c["subs"] = {rng.choice(D.SUBS_NAMES): [rng.randrange(3) for _ in range(rng.randint(1, 2))] for _ in range(rng.randint(0, 2))}
             c["form"] = "dict"
@@ -144,6 +164,22 @@ def rand_plan(rng):
         if "'RuntimeError'" in s or "['kind', 'GeneratorExit']" in s or "['kind', 'KeyboardInterrupt']" in s:
             continue
         return p
+
+
+def remap(p, rng, n):
+    """spread the message ids of a gen_dsl random program over n messages"""
+    t = p[0]
+    if t == "yield":
+        return ["yield", p[1], rng.randrange(n)]
+    if t == "seq":
+        return ["seq", remap(p[1], rng, n), remap(p[2], rng, n)]
+    if t == "if":
+        return ["if", p[1], remap(p[2], rng, n), remap(p[3], rng, n)]
+    if t in ("yf", "for"):
+        return [t, p[1], remap(p[2], rng, n)]
+    if t == "try":
+        return ["try", remap(p[1], rng, n), [[h, remap(b, rng, n)] for h, b in p[2]], remap(p[3], rng, n), remap(p[4], rng, n)]
+    return p
 
 
 def flat_subs(subs):
@@ -175,6 +211,8 @@ def builder(case, rec=None):
             return bp.subs_wrapper(plan, subs)
         if w == "run":
             return bp.run_wrapper(plan)
+        if w == "lazy":
+            return bp.lazily_stage_wrapper(plan)
         raise ValueError(w)
     return build
 
@@ -239,6 +277,11 @@ def coq_term(case, obs):
         return "c23_subs %s %s %s %s %s" % (subs, sets, T, P, R)
     if w == "run":
         return "c23_run %s %s %s" % (T, P, R)
+    if w == "lazy":
+        par = "[" + "; ".join("(%d, %d)" % (c, p) for c, p in case.get("parents", [])) + "]"
+        lists = "[" + "; ".join(D.c_list(l) for l in case["lists"]) + "]"
+        fb = "true" if finding(case, obs) == "b" else "false"
+        return "c23_lazy true %s %s %s %s %s %s" % (par, lists, T, P, fb, R)
     raise ValueError(w)
 
 
@@ -318,6 +361,10 @@ def oracle(case, obs):
             if ends_plainly(s, t) and len(t) > 1 and (not un or all_sends_after(s, t, un[0][0])):
                 if set(map(repr, ut)) != set(map(repr, got)):
                     return "script %s ends with %s: tokens received %s, unsubscribed %s" % (s, t[-1], got, ut)
+        elif w == "lazy":
+            why = lazy_oracle(case, s, t)
+            if why:
+                return "script %s: %s" % (s, why)
         elif w == "run":
             cl = made(t, "close")
             if len(cl) > 1:
@@ -345,12 +392,57 @@ def oracle(case, obs):
     return None
 
 
+def root_of(case, d):
+    par = {c: p for c, p in case.get("parents", [])}
+    while d in par:
+        d = par[d]
+    return d
+
+
+def lazy_oracle(case, s, t):
+    """every device the wrapper staged is unstaged exactly once, in reverse order: no root is staged twice; the
+    unstage messages are the staged devices (what the stage messages were answered with; the root itself for the
+    answer None), last staged first"""
+    staged_roots, recorded = [], []
+    un = made(t, "unstage")
+    for i, o in enumerate(t):
+        if o[0] == "y" and o[1] == "v" and o[2][0] == "stage":
+            r = o[2][1]
+            if r in staged_roots:
+                return "root %d staged a second time" % r
+            ans = s[i + 1] if i + 1 < len(t) else None
+            if ans is not None and ans[0] == "send":
+                if ans[1] is not None and ans[1] >= 50:
+                    return "the stage message was answered with a Status: TypeError inside the wrapper, root %d never unstaged" % r
+                staged_roots.append(r)
+                recorded += [r] if ans[1] is None else case["lists"][ans[1]]
+        elif o[0] == "y" and o[1] == "id":
+            v = case["msgs"][o[2]]
+            d = v[2] if v[0] == "cmd" and v[1] < 3 else (v[1] if v[0] == "kickoff" else None)
+            if d is not None and root_of(case, d) not in staged_roots and not un:
+                return "message on device %d left the wrapper before its root was staged" % d
+    ud = [v[1] for _, v in un]
+    if ud != list(reversed(recorded))[:len(ud)]:
+        return "unstaged %s, staged (in order) %s" % (ud, recorded)
+    if ends_plainly(s, t) and len(t) > 1 and (not un or all_sends_after(s, t, un[0][0])) and ud != list(reversed(recorded)):
+        return "ends with %s: staged %s, unstaged only %s" % (t[-1], recorded, ud)
+    return None
+
+
 def finding(case, obs):
+    """Mirror of finding class C23-b: the inserted stage message is answered with a Status (not iterable)."""
+    if case["w"] != "lazy":
+        return None
+    for s, t, _ in obs["runs"]:
+        for i, o in enumerate(t):
+            if o[0] == "y" and o[1] == "v" and o[2][0] == "stage" and i + 1 < len(t) and s[i + 1][0] == "send" \
+                    and s[i + 1][1] is not None and s[i + 1][1] >= 50:
+                return "b"
     return None
 
 
 def nontrivial(case, obs):
-    kinds = {"stage": "unstage", "suspend": "remove", "subs": "unsubscribe", "run": "close"}
+    kinds = {"stage": "unstage", "suspend": "remove", "subs": "unsubscribe", "run": "close", "lazy": "unstage"}
     k = kinds.get(case["w"])
     return any(made(t, k) for _, t, _ in obs["runs"]) and any(len(t) >= 4 for _, t, _ in obs["runs"])
 
